@@ -133,17 +133,37 @@ pub fn run(out: &mut Out, thorough: bool, seed: u64) {
         let atoms = ast::default_atoms(ctx, !thorough);
         let frags: Vec<ast::Typed> = ast::enumerate(ctx, &atoms, if thorough { 3 } else { 2 }, if thorough { 30 } else { 10 }, &mut rng)
             .into_iter().filter(|t| t.base == Base::B).collect();
-        if let Some(d) = desc::build_tr(3, &[]) {
+        for ik in [3u32, 0] { if let Some(d) = desc::build_tr(ik, &[]) {
             for tk in [true, false] {
                 let mut a = DAssets::default(); a.tapkey = tk;
-                for sa in [false, true] { a.schnorr_all = sa; desc::satisfy_and_judge(out, &d, &a, false); }
+                for sa in [false, true] { a.schnorr_all = sa; for mall in [false, true] { desc::satisfy_and_judge(out, &d, &a, mall); } }
+            }
+        } }
+        // tr leaves from the designated corpus too (full keys of both parities in the leaves)
+        {
+            let corpus: Vec<ast::Node> = ast::dimension_corpus(ctx).into_iter().filter(|n| !n.has_rawpkh()).collect();
+            for (j, n) in corpus.iter().enumerate() {
+                let other = corpus[(j * 7 + 3) % corpus.len()].clone();
+                for (ik, leaves, shape) in [(3u32, vec![n.clone()], 0u8), (0, vec![other.clone(), n.clone()], 1), (8, vec![n.clone(), other.clone(), ast::Node::Check(Box::new(ast::Node::PkK(205)))], 2)] {
+                    if let Some(d) = desc::build_tr_shaped(ik, &leaves, shape) {
+                        n_desc += 1;
+                        let refs: Vec<&ast::Node> = leaves.iter().collect();
+                        for mut a in dassets_subsets(&refs, if thorough { 8 } else { 3 }) {
+                            a.schnorr_all = j % 2 == 0;
+                            for mall in [false, true] { desc::satisfy_and_judge(out, &d, &a, mall); }
+                        }
+                    }
+                }
             }
         }
         let n_tr = if thorough { 1500 } else { 250 };
         for i in 0..n_tr {
-            let nl = 1 + rng.below(4);
+            // up to 6 leaves; left comb / right comb / balanced; internal keys of both parities
+            // (ids 3, 9 are 02-prefixed, ids 0, 8 are 03-prefixed)
+            let nl = 1 + rng.below(if i % 5 == 0 { 6 } else { 4 });
             let leaves: Vec<ast::Node> = (0..nl).map(|_| frags[rng.below(frags.len())].node.clone()).collect();
-            if let Some(d) = desc::build_tr(3, &leaves) {
+            let ik = [3u32, 0, 9, 8][i % 4];
+            if let Some(d) = desc::build_tr_shaped(ik, &leaves, (i % 3) as u8) {
                 n_desc += 1;
                 let refs: Vec<&ast::Node> = leaves.iter().collect();
                 for mut a in dassets_subsets(&refs, if thorough { 8 } else { 4 }) {
